@@ -432,7 +432,11 @@ class BytesDataType(ElementaryDataType):
 
     @classmethod
     def _encode(cls, value: bytes, *args, **kwargs) -> bytes:
-        return value[: cls.size] if cls.size != -1 else value[:]
+        if not isinstance(value, (bytes, bytearray)):
+            raise TypeError(f"a bytes-like value is required, not {type(value).__name__}")
+        if cls.size != -1 and len(value) < cls.size:
+            raise ValueError(f"not enough bytes, expected {cls.size} and got {len(value)}")
+        return bytes(value[: cls.size] if cls.size != -1 else value[:])
 
     @classmethod
     def _decode(cls, stream: BytesIO) -> bytes:
